@@ -26,8 +26,8 @@ RULE = ('one case = (writer in {OutputToJSON, OutputToFile(pickle), atomic_write
         '1-3 phases, destination absent or holding an old complete record, filename pattern '
         'kind, fault kind and position k): every k for serializer-raises-after-k-chunks and '
         'k-th-write-raises, close raises (for atomic_write: the final flush inside close), move/rename raises, real mid-stream serializer '
-        'failure, no fault; faults raising KeyboardInterrupt / ThreadTerminationError instead of an '
-        'OSError; two writers publishing to one destination at overlapping times; the same callback object publishing the next record after a failed publication; the writer in a child with RLIMIT_FSIZE below / above the size of the publication; and (thorough, plus a few in quick) the writer running in a child '
+        'failure, no fault; faults raising KeyboardInterrupt / ThreadTerminationError / InterruptedError / BrokenPipeError / OSError(ENOSPC) instead of a '
+        'plain OSError; two writers publishing to one destination at overlapping times; the same callback object publishing the next record after a failed publication; the writer in a child with RLIMIT_FSIZE below / above the size of the publication; and (thorough, plus a few in quick) the writer running in a child '
         'process that is SIGKILLed by strace at its N-th file-system system call for every N; '
         'distinct = distinct case; non-trivial = a fault fired (or a success was compared '
         'byte for byte) and the destination was inspected')
@@ -111,7 +111,7 @@ def enumerated(tier):
   # the same faults raising a BaseException that is not an Exception
   for writer in ('json', 'pickle'):
     for dest in ('absent', 'old'):
-      for exc in ('kbi', 'term'):
+      for exc in ('kbi', 'term', 'eintr', 'pipe', 'enospc'):
         for fault in (['close'], ['move'], ['ser', 0], ['ser', 1], ['ser', 7],
                       ['write', 0], ['write', 1], ['write', 2], ['write', 25]):
           yield {'w': writer, 'n': 1, 'dest': dest, 'fault': fault,
@@ -175,6 +175,12 @@ def injected(case, what):
   if kind == 'term':
     from openhtf.util import threads
     return threads.ThreadTerminationError('injected ' + what)
+  if kind == 'eintr':   # OSError subclasses a handler might single out
+    return InterruptedError(4, 'injected ' + what)
+  if kind == 'pipe':
+    return BrokenPipeError(32, 'injected ' + what)
+  if kind == 'enospc':
+    return OSError(28, 'injected ' + what)
   return Injected('injected ' + what)
 
 
